@@ -13,6 +13,7 @@ Z.div / Z.modulo (both floor for positive divisors, as Python's); `ceil(a / b)` 
 from __future__ import annotations
 
 import ast
+import os
 import subprocess
 from pathlib import Path
 
@@ -31,38 +32,72 @@ KERNELS = {
     "_fix_copy_chunks": ("cubed/core/rechunk.py", [("shape", "list Z"), ("copy_chunks", "list Z"), ("target_chunks", "list Z")], "list Z"),
     "_calculate_shared_chunks": ("cubed/vendor/rechunker/algorithm.py", [("read_chunks", "list Z"), ("write_chunks", "list Z")], "list Z"),
     "_count_intermediate_chunks": ("cubed/vendor/rechunker/algorithm.py", [("source_chunk", "Z"), ("target_chunk", "Z"), ("size", "Z")], "Z"),
+    # natural-number kernels (lengths and chunk sizes): no subtraction occurs in them
+    "_check_regular_chunks": ("cubed/vendor/dask/array/core.py", [("chunkset", "list (list nat)")], "bool"),
+    "to_chunksize": ("cubed/utils.py", [("chunkset", "list (list nat)")], "option (list nat)"),
+    # methods of MemoryModeller: state (current_mem, peak_mem) -> state
+    "MemoryModeller.allocate": ("cubed/primitive/memory.py", [("self", {"current_mem": "Z", "peak_mem": "Z"}), ("num_bytes", "Z")], "Z * Z"),
+    "MemoryModeller.free": ("cubed/primitive/memory.py", [("self", {"current_mem": "Z", "peak_mem": "Z"}), ("num_bytes", "Z")], "Z * Z"),
 }
+NAT_KERNELS = {"_check_regular_chunks", "to_chunksize"}
 
-GENEQUIV = r'''
-From CubedV Require Import Model.Util Model.Memory Model.Rechunk.
+GEN_HEADER = r"""
+From CubedV Require Import Model.Util Model.Memory Model.Rechunk Model.Regular.
 From Gen Require Import Gen.
 Local Open Scope Z_scope.
+"""
 
-Lemma map2_map3_ext {A B C D} (f g : A -> B -> C -> D) a b c : (forall x y z, f x y z = g x y z) -> map3 f a b c = map3 g a b c.
-Proof. intros H. revert b c. induction a as [|x a IH]; intros [|y b] [|z c]; cbn; try reflexivity. now rewrite H, IH. Qed.
-
+# kernel -> the equivalence with the hand-written model that Coq must accept
+EQUIV = {
+    "calculate_projected_mem": r"""
 Theorem gen_calculate_projected_mem_equiv : forall reserved inputs operation output rc wc,
   gen_calculate_projected_mem reserved inputs operation output rc wc = calc_projected reserved inputs operation output rc wc.
 Proof. intros. reflexivity. Qed.
-
+""",
+    "_fix_copy_chunks": r"""
 Theorem gen__fix_copy_chunks_equiv : forall shape cc tc, gen__fix_copy_chunks shape cc tc = fix_copy_chunks shape cc tc.
 Proof. intros. reflexivity. Qed.
-
+""",
+    "_calculate_shared_chunks": r"""
 Theorem gen__calculate_shared_chunks_equiv : forall r w, gen__calculate_shared_chunks r w = shared_chunks r w.
 Proof. intros. reflexivity. Qed.
-
+""",
+    "_count_intermediate_chunks": r"""
 Theorem gen__count_intermediate_chunks_equiv : forall sc tc size,
   gen__count_intermediate_chunks sc tc size = count_intermediate sc tc size.
 Proof.
   intros. unfold gen__count_intermediate_chunks, count_intermediate.
   destruct (size mod Z.lcm sc tc =? 0); reflexivity.
 Qed.
-'''
+""",
+    "_check_regular_chunks": r"""
+Theorem gen__check_regular_chunks_equiv : forall cs, gen__check_regular_chunks cs = Regular.check_regular cs.
+Proof. intros. reflexivity. Qed.
+""",
+    "to_chunksize": r"""
+Theorem gen_to_chunksize_equiv : forall cs, gen_to_chunksize cs = Regular.to_chunksize cs.
+Proof. intros. reflexivity. Qed.
+""",
+    "MemoryModeller.allocate": r"""
+Theorem gen_MemoryModeller_allocate_equiv : forall c p n,
+  gen_MemoryModeller_allocate c p n = (cur (allocate {| cur := c; peak := p |} n), peak (allocate {| cur := c; peak := p |} n)).
+Proof. intros. reflexivity. Qed.
+""",
+    "MemoryModeller.free": r"""
+Theorem gen_MemoryModeller_free_equiv : forall c p n,
+  gen_MemoryModeller_free c p n = (cur (free {| cur := c; peak := p |} n), peak (free {| cur := c; peak := p |} n)).
+Proof. intros. reflexivity. Qed.
+""",
+}
+DEPS = {"to_chunksize": ["_check_regular_chunks"]}
+
 
 
 class Tr:
-    def __init__(self, params):
+    def __init__(self, params, nat=False):
         self.records = {n: t for n, t in params if isinstance(t, dict)}
+        self.nat = nat
+        self.M = "Nat" if nat else "Z"
 
     def expr(self, e):
         if isinstance(e, ast.Name):
@@ -71,8 +106,21 @@ class Tr:
             return f"({e.value})"
         if isinstance(e, ast.Attribute) and isinstance(e.value, ast.Name) and e.value.id in self.records and e.attr in self.records[e.value.id]:
             return f"{e.value.id}_{e.attr}"
+        if isinstance(e, ast.Subscript) and isinstance(e.value, ast.Name):
+            # c[0], c[-1], c[:-1] on a list of numbers
+            sl = e.slice
+            if isinstance(sl, ast.Constant) and sl.value == 0:
+                return f"(hd 0 {e.value.id})"
+            if isinstance(sl, ast.UnaryOp) and isinstance(sl.op, ast.USub) and isinstance(sl.operand, ast.Constant) and sl.operand.value == 1:
+                return f"(last {e.value.id} 0)"
+            if (isinstance(sl, ast.Slice) and sl.lower is None and sl.step is None and isinstance(sl.upper, ast.UnaryOp)
+                    and isinstance(sl.upper.op, ast.USub) and isinstance(sl.upper.operand, ast.Constant) and sl.upper.operand.value == 1):
+                return f"(removelast {e.value.id})"
+            raise TranslationError("subscript")
         if isinstance(e, ast.BinOp):
             ops = {ast.Add: "+", ast.Sub: "-", ast.Mult: "*", ast.FloorDiv: "/", ast.Mod: "mod"}
+            if self.nat and isinstance(e.op, ast.Sub):
+                raise TranslationError("subtraction in a natural-number kernel")
             if type(e.op) not in ops:
                 raise TranslationError(f"operator {type(e.op).__name__}")
             return f"({self.expr(e.left)} {ops[type(e.op)]} {self.expr(e.right)})"
@@ -96,7 +144,14 @@ class Tr:
         if isinstance(e, ast.Call) and isinstance(e.func, ast.Name):
             fn = e.func.id
             if fn in ("min", "max") and len(e.args) == 2 and not e.keywords:
-                return f"(Z.{fn} {self.expr(e.args[0])} {self.expr(e.args[1])})"
+                return f"({self.M}.{fn} {self.expr(e.args[0])} {self.expr(e.args[1])})"
+            if fn == "len" and len(e.args) == 1 and self.nat:
+                a = e.args[0]
+                if isinstance(a, ast.Call) and isinstance(a.func, ast.Name) and a.func.id == "set" and len(a.args) == 1:
+                    return f"(distinct_count {self.expr(a.args[0])})"
+                return f"(length {self.expr(a)})"
+            if fn in KERNELS and not e.keywords:
+                return f"(gen_{fn} {' '.join(self.expr(a) for a in e.args)})"
             if fn == "lcm" and len(e.args) == 2:
                 return f"(Z.lcm {self.expr(e.args[0])} {self.expr(e.args[1])})"
             if fn == "ceil" and len(e.args) == 1 and isinstance(e.args[0], ast.BinOp) and isinstance(e.args[0].op, ast.Div):
@@ -110,6 +165,8 @@ class Tr:
             raise TranslationError("generator shape")
         gen = g.generators[0]
         it = gen.iter
+        if isinstance(it, ast.Name) and isinstance(gen.target, ast.Name):
+            return f"(map (fun {gen.target.id} => {self.expr(g.elt)}) {it.id})"
         if not (isinstance(it, ast.Call) and isinstance(it.func, ast.Name) and it.func.id == "zip" and isinstance(gen.target, ast.Tuple)):
             raise TranslationError("generator must iterate over zip(...) with a tuple target")
         names = [t.id for t in gen.target.elts]
@@ -134,7 +191,39 @@ class Tr:
         if isinstance(s, ast.Return):
             if rest:
                 raise TranslationError("code after return")
+            if result.startswith("option"):
+                return f"Some {self.expr(s.value)}"
             return self.expr(s.value)
+        # `if <test>: raise ...` in a function whose result is an option: refusal
+        if (isinstance(s, ast.If) and not s.orelse and len(s.body) == 1 and isinstance(s.body[0], ast.Raise) and result.startswith("option")):
+            return f"if {self.cond(s.test)} then None else\n  {self.stmts(rest, result)}"
+        # `for x in xs: (if t: continue | if t: return False)* ; return True`  ==  forallb
+        if (isinstance(s, ast.For) and isinstance(s.target, ast.Name) and not s.orelse and result == "bool" and len(rest) == 1
+                and isinstance(rest[0], ast.Return) and isinstance(rest[0].value, ast.Constant) and rest[0].value.value is True
+                and all(isinstance(b, ast.If) and not b.orelse and len(b.body) == 1 for b in s.body)):
+            inner = "true"
+            for b in reversed(s.body):
+                act = b.body[0]
+                if isinstance(act, ast.Continue):
+                    inner = f"if {self.cond(b.test)} then true else {inner}"
+                elif isinstance(act, ast.Return) and isinstance(act.value, ast.Constant) and act.value.value is False:
+                    inner = f"if {self.cond(b.test)} then false else {inner}"
+                else:
+                    raise TranslationError("loop body of a forall-loop")
+            return f"forallb (fun {s.target.id} => {inner}) {self.expr(s.iter)}"
+        # method: self.f = e / self.f op= e on declared record fields; falling off the end returns the state
+        if isinstance(s, (ast.Assign, ast.AugAssign)) and "self" in self.records:
+            t = s.targets[0] if isinstance(s, ast.Assign) and len(s.targets) == 1 else getattr(s, "target", None)
+            if isinstance(t, ast.Attribute) and isinstance(t.value, ast.Name) and t.value.id == "self" and t.attr in self.records["self"]:
+                v = f"self_{t.attr}"
+                if isinstance(s, ast.Assign):
+                    val = self.expr(s.value)
+                elif isinstance(s.op, (ast.Add, ast.Sub)):
+                    val = f"({v} {'+' if isinstance(s.op, ast.Add) else '-'} {self.expr(s.value)})"
+                else:
+                    raise TranslationError("augmented assignment operator")
+                tail = self.stmts(rest, result) if rest else "(" + ", ".join(f"self_{k}" for k in self.records["self"]) + ")"
+                return f"let {v} := {val} in\n  {tail}"
         if isinstance(s, ast.Assign) and len(s.targets) == 1:
             t = s.targets[0]
             if isinstance(t, ast.Name):
@@ -173,10 +262,16 @@ class Tr:
         raise TranslationError(f"statement {type(s).__name__} at line {getattr(s, 'lineno', '?')}")
 
 
-def translate(name, repo="/repo"):
+def translate(name, repo=None):
+    repo = repo or os.environ.get("VERIF_REPO", "/repo")
     path, params, result = KERNELS[name]
     tree = ast.parse((Path(repo) / path).read_text())
-    fn = next((n for n in ast.walk(tree) if isinstance(n, ast.FunctionDef) and n.name == name), None)
+    if "." in name:
+        cls, meth = name.split(".")
+        cnode = next((n for n in ast.walk(tree) if isinstance(n, ast.ClassDef) and n.name == cls), None)
+        fn = next((n for n in (cnode.body if cnode else []) if isinstance(n, ast.FunctionDef) and n.name == meth), None)
+    else:
+        fn = next((n for n in tree.body if isinstance(n, ast.FunctionDef) and n.name == name), None)
     if fn is None:
         raise TranslationError(f"{name} not found in {path}")
     argnames = [a.arg for a in fn.args.args]
@@ -188,31 +283,39 @@ def translate(name, repo="/repo"):
             binders += [f"({p}_{k} : {v})" for k, v in t.items()]
         else:
             binders.append(f"({p} : {t})")
-    body = Tr(params).stmts(fn.body, result)
-    return f"Definition gen_{name} {' '.join(binders)} : {result} :=\n  {body}.\n"
+    body = Tr(params, nat=name in NAT_KERNELS).stmts(fn.body, result)
+    scope = "%nat" if name in NAT_KERNELS else "%Z"
+    return f"Definition gen_{name.replace('.', '_')} {' '.join(binders)} : {result} :=\n  ({body}){scope}.\n"
 
 
-def check(names=None, repo="/repo"):
-    """Translate + compile + check equivalences. Returns (ok, message, generated text)."""
-    names = names or list(KERNELS)
-    gen = VERIF / "build" / "gen"
+def check(names=None, repo=None, tag="all"):
+    """Translate the named kernels (+ the kernels they call) from `repo`, compile, check their equivalences.
+    Returns (ok, message, generated text)."""
+    names = list(names or KERNELS)
+    order = []
+    for n in names:
+        for d in DEPS.get(n, []) + [n]:
+            if d not in order:
+                order.append(d)
+    repo = repo or os.environ.get("VERIF_REPO", "/repo")
+    gen = VERIF / "build" / "gen" / (tag + ("" if repo == "/repo" else "_" + "".join(ch if ch.isalnum() else "_" for ch in repo)))
     gen.mkdir(parents=True, exist_ok=True)
     try:
-        defs = [translate(n, repo) for n in KERNELS]     # the equivalence file mentions all kernels
+        defs = [translate(n, repo) for n in order]
     except TranslationError as e:
         return False, f"translation failed (source left the translatable subset or changed signature): {e}", ""
     except Exception as e:
         return False, f"translation failed: {type(e).__name__}: {e}", ""
     text = ("(* GENERATED on every run from /repo by harness/translate.py - do not edit *)\n"
-            "From CubedV Require Import Model.Util Model.Rechunk.\nLocal Open Scope Z_scope.\n\n" + "\n".join(defs))
+            "From CubedV Require Import Model.Util Model.Rechunk Model.Regular.\nLocal Open Scope Z_scope.\n\n" + "\n".join(defs))
     (gen / "Gen.v").write_text(text)
-    (gen / "GenEquiv.v").write_text(GENEQUIV)
+    (gen / "GenEquiv.v").write_text(GEN_HEADER + "".join(EQUIV[n] for n in order))
     for f in ("Gen.v", "GenEquiv.v"):
         p = subprocess.run(["timeout", "300", "coqc", "-Q", str(VERIF / "coq"), "CubedV", "-Q", str(gen), "Gen", f], cwd=gen,
                            stdout=subprocess.PIPE, stderr=subprocess.STDOUT, text=True)
         if p.returncode != 0:
             return False, f"{f} does not check: the code of a translated kernel no longer equals its model\n{p.stdout[-1200:]}", text
-    return True, "4 kernels translated and proved equal to their models", text
+    return True, f"{len(order)} kernels translated from /repo and proved equal to their models: {', '.join(order)}", text
 
 
 if __name__ == "__main__":
